@@ -232,6 +232,10 @@ func (p *Packet) NewData(data interface{}, dims []int16) error {
 	default:
 		return fmt.Errorf("could not handle Packet.NewData of type %v", reflect.TypeOf(d))
 	}
+	// The payload length is a 16-bit field: refuse data that would silently wrap around it.
+	if nbytes := pfmt.wordlen * reflect.ValueOf(data).Len(); nbytes > maxPACKETLENGTH {
+		return fmt.Errorf("payload length %d exceeds max packet length of %d", nbytes, maxPACKETLENGTH)
+	}
 	p.format = pfmt
 	p.headerLength += 8
 	p.shape = new(headPayloadShape)
